@@ -199,6 +199,14 @@ func c18Body(c *run.Ctx) {
 			for k := 0; k < reps; k++ {
 				ad, a := newBot(id)
 				view := cloneT(st.Table)
+				if k%3 == 2 && view.State.BlindState != nil {
+					// the blind level was raised after this hand opened: the hand keeps its own amounts
+					b := view.State.BlindState
+					b.Level, b.Ante, b.Dealer, b.SB, b.BB = b.Level+1, b.Ante+7, b.Dealer+3, 2*b.SB+1, 2*b.BB+1
+					if has(p.AllowedActions, "pay") {
+						labels["pay_with_table_level_raised_during_hand"] = true
+					}
+				}
 				if pan := feed(func() { ad.UpdateTableState(view) }); pan != "" {
 					c.Failf("C18.bot-panicked", "%s: bot %s (game index %d, allowed %v, stack %d of %d, wager %d, current wager %d, previous raise %d) panicked instead of moving: %s", st.Desc, id, gi, p.AllowedActions, p.StackSize, p.InitialStackSize, p.Wager, gs.Status.CurrentWager, gs.Status.PreviousRaiseSize, pan)
 				}
